@@ -158,7 +158,7 @@ package mcp
 //@ type StdioClient
 //@   private[C16] initialized, state writers Initialize, Close, setState
 //@   invariant[C16 initialized-iff-state-initialized] self.initialized <==> stdioStateIs(self, StateInitialized)
-//@   invariant[C16 state-cell-holds-a-state] isnil(self.state) || istype(self.state, State)
+//@   invariant isnil(self.state) || istype(self.state, State)
 //@
 //@ func stdioClientTransport.sendRequest
 //@   trusted
@@ -247,7 +247,7 @@ package mcp
 // the whole type lattice at once).
 
 //@ sweepscope[C06] kinds=typeassert,close,nilmap files=streamable_server.go,sse_server.go,stdio_server.go,handler.go,manager_tools.go,manager_prompt.go,manager_resource.go,manager_lifecycle.go,jsonrpc.go,mcp_types.go,responder_json.go,responder_sse.go,responder.go,session.go,server.go,notifier.go,mcp_notification.go,internal/session/session.go
-//@ sweepscope[C07] kinds=typeassert,close,nilmap files=streamable_client.go,sse_client.go,transport_stdio.go,client.go,stdio_client.go,utils_json.go,mcp_tools.go,mcp_prompts.go,mcp_resources.go,transport_http.go
+//@ sweepscope[C07] kinds=typeassert,close,nilmap files=streamable_client.go,sse_client.go,transport_stdio.go,client.go,stdio_client.go,utils_json.go,mcp_tools.go,mcp_prompts.go,mcp_resources.go,transport_http.go except=.With,.New
 
 // Maps that are created by the constructor and never reassigned: final fields,
 // non-nil by type invariant (assumed for objects built by their constructors;
@@ -278,3 +278,26 @@ package mcp
 //@   requires[C06] istype(request.ID, int64)
 //@ func resourceManager.unsubscribe
 //@   requires[C06] !closed(ch)
+
+// ---------------------------------------------------------------------------
+// client transports — C07 (maps created by the constructors, channel latches)
+
+//@ type sseClientTransport
+//@   private[C07] endpointReceived, endpointChan writers handleEndpointEvent
+//@   owns endpointChan
+//@   private[C07] responses writers close
+//@   invariant self.responses != nil
+//@   invariant[C07 endpoint-latch-closed-only-after-the-flag-is-set] self.endpointChan != nil && (!self.endpointReceived ==> !closed(self.endpointChan))
+//@ type stdioClientTransport
+//@   final[C07,C20] pendingRequests, notificationHandlers
+//@   invariant self.pendingRequests != nil && self.notificationHandlers != nil
+//@ type streamableHTTPClientTransport
+//@   invariant self.notificationHandlers != nil
+//@ type StdioClient
+//@   final[C07] capabilities
+//@   invariant self.capabilities != nil
+//@
+//@ func stdioClientTransport.close$1
+//@   requires[C07] done != nil && !closed(done)
+//@ func sseClientTransport.close
+//@   nosweep close
